@@ -137,10 +137,10 @@ class GenSource(object):
         # same arguments and with fresh ones - counters, budgets, cache-size thresholds and evictions only show then
         self.hammer = None
         self.hammer_spec = None
-        if self.rng.random() < 1.0 / 16:
+        if self.rng.random() < 1.0 / 20:
             cheap = [n for n in NAMES if self.est(n) < 600 and ENTRIES[n].effect == 'pure']
             self.hammer = self.rng.choice(cheap)
-            self.cfg['nops'] = self.rng.randint(150, 400)
+            self.cfg["nops"] = self.rng.randint(120, 300)
             self.cfg['hammer'] = self.hammer
         # affinity: which catalogue entries enter which pymeeus functions (measured by ./check calibrate);
         # used to make overlapping calls share code, which is where per-function scratch state would bite
